@@ -96,6 +96,12 @@ func c06Negatives() []*pgen.Case {
 	return []*pgen.Case{
 		mk("ctx_missing", "extend function needs a context no caller supplies", types+"// goverter:converter\n// goverter:extend Ext\ntype Converter interface {\n\tConvert(source In) Out\n}\n"),
 		mk("ctx_missing_in_chain", "explicit method in the chain lacks the context", types+"type Wrap struct{ I In }\ntype WrapOut struct{ I Out }\n\n// goverter:converter\n// goverter:extend Ext\ntype Converter interface {\n\t// goverter:context c\n\tOuter(source Wrap, c Ctx) WrapOut\n\tInner(source In) Out\n}\n"),
+		mk("src_method_ctx_missing_nested", "a source method of a NESTED struct needs a context the declared method does not have",
+			"type Locale string\ntype Order struct{ ID int; Customer Customer }\ntype Customer struct{ First string }\nfunc (c Customer) DisplayName(locale Locale) string { return c.First + string(locale) }\ntype OrderView struct{ ID int; Customer CustomerView }\ntype CustomerView struct{ First string; DisplayName string }\n\n// goverter:converter\ntype Converter interface {\n\tConvert(source Order) OrderView\n}\n"),
+		mk("src_method_ctx_missing", "a source method needs a context the declared method does not have",
+			"type Locale string\ntype Customer struct{ First string }\nfunc (c Customer) DisplayName(locale Locale) string { return c.First + string(locale) }\ntype CustomerView struct{ First string; DisplayName string }\n\n// goverter:converter\ntype Converter interface {\n\tConvert(source Customer) CustomerView\n}\n"),
+		mk("declared_method_ctx_missing", "a declared method for the nested pair needs a context the calling method does not have",
+			"type In struct{ H HA2 }\ntype HA2 struct{ V int }\ntype Out struct{ H HB2 }\ntype HB2 struct{ V int }\ntype Ctx2 struct{ ID string }\n\n// goverter:converter\ntype Converter interface {\n\tOuter(source In) Out\n\t// goverter:context c\n\tInner(source HA2, c Ctx2) HB2\n}\n"),
 		mk("map_func_ctx_missing", "map|FUNC needs a context the method does not have", "type In struct{ V int }\ntype Out struct{ V int; T string }\ntype Ctx struct{ ID string }\n// goverter:context c\nfunc Tag(c Ctx) string { return c.ID }\n\n// goverter:converter\ntype Converter interface {\n\t// goverter:map T | Tag\n\tConvert(source In) Out\n}\n"),
 		mk("default_ctx_missing", "default FUNC needs a context the method does not have", "type In struct{ V int }\ntype Out struct{ V int }\ntype Ctx struct{ ID string }\n// goverter:context c\nfunc New(c Ctx) Out { return Out{} }\n\n// goverter:converter\ntype Converter interface {\n\t// goverter:default New\n\tConvert(source *In) Out\n}\n"),
 	}
